@@ -64,6 +64,11 @@ StrictWithinStructural == /\ (AcceptsAtEnd(m) => AcceptsAtEnd(ms))
                           /\ (m.st = "run" => (m.stk = ms.stk /\ m.exp = ms.exp))
 \* the incremental machines equal a run from scratch (Delta is a pure fold)
 FoldOK == m = Run(s, TRUE) /\ ms = RunFrom(Start, s, 1, FALSE, FALSE)
+\* a document that opens with a container or a string and does not end in a blank has no proper prefix that is itself a
+\* document: every truncation of it is malformed.  The typed prefix universe (C02 / C05: every prefix of the binding
+\* universe's documents decoded into a typed destination) takes "must be rejected" from this.
+PrefixFree == (Len(s) > 0 /\ AcceptsAtEnd(ms) /\ s[1] \in {"lb", "ls", "qt"} /\ ~IsBlank(s[Len(s)]))
+                 => \A k \in 1..(Len(s) - 1) : ~AcceptsAtEnd(RunFrom(Start, SubSeq(s, 1, k), 1, FALSE, FALSE))
 \* overflow of the nesting limit is a state of its own, never a wrap-around
 DepthIsError == (m.st = "deep") => Len(m.stk) = MaxDepth
 =============================================================================
